@@ -63,6 +63,7 @@ fn real_main() {
         "gen-corpus" => gen::gen_corpus(&args),
         "gen-mutants" => gen::gen_mutants(&args),
         "parse-events" => parse_ev::parse_events(&args),
+        "flags-events" => parse_ev::flags_events(&args),
         "roundtrip-events" => rt_ev::roundtrip_events(&args),
         "value-events" => api_ev::value_events(&args),
         "dt-events" => api_ev::dt_events(&args),
